@@ -13,7 +13,7 @@ for d in /verif/seeded/$PAT/; do
   tmp=$(mktemp -d /tmp/seedrepo-XXXXXX)
   rsync -a --exclude .git /repo/ "$tmp/"
   if ! (cd "$tmp" && patch -p1 -s < "$d/patch.diff"); then echo "$n PATCH-DOES-NOT-APPLY" >> "$OUT.tmp"; rm -rf "$tmp"; continue; fi
-  out=$("$SNAP/bin/govc" check -repo "$tmp" -verif "$SNAP" -prop "$P" -no-evidence -replays "$tmp/.replays" 2>&1); rc=$?
+  out=$("$SNAP/bin/govc" check -repo "$tmp" -verif "$SNAP" -prop "$P" -no-evidence -no-retry -replays "$tmp/.replays" 2>&1); rc=$?
   rm -rf "$tmp"
   first=$(echo "$out" | grep -m1 '^VIOLATION' | sed 's/replay=[^ ]* //' | cut -c1-230)
   eng=$(echo "$out" | grep -m1 '^ENGINE-ERROR' | grep -v stale-baseline | cut -c1-160)
